@@ -15,4 +15,4 @@ for name, claim, opts in mod.cases("quick"):
         t = time.time()
         decide(c, name, claim, timeout_s=60, validate=1, **opts)
         print(name, round(time.time() - t, 1),
-              [(o["name"].split(":")[-1], o["status"], o["detail"][:300]) for o in c.obligations], c.errors[:1])
+              [(o["name"].split(":")[-1], o["status"], o["detail"][-600:]) for o in c.obligations], c.errors[:1])
